@@ -230,7 +230,9 @@ class DiskCache:
         """
         try:
             raw_bytes = pickle.dumps(value)
-        except (pickle.PicklingError, TypeError, AttributeError):
+        except Exception:
+            # whatever __reduce__/__getstate__ of a user object raises: caching is
+            # best effort, the run goes on without this entry
             logger.warning("Cache write skipped: output not picklable for key %s", key)
             return
 
@@ -253,7 +255,9 @@ def compute_cache_key(definition_hash: str, inputs: dict[str, Any]) -> str:
     try:
         sorted_items = sorted(inputs.items())
         inputs_bytes = pickle.dumps(sorted_items)
-    except (pickle.PicklingError, TypeError, AttributeError) as exc:
+    except Exception as exc:
+        # whatever __reduce__/__getstate__ of a user object raises: the node is
+        # simply not cacheable for these inputs
         logger.warning("Cache miss: inputs not picklable (%s)", exc)
         return ""
     content = definition_hash.encode() + inputs_bytes
